@@ -46,6 +46,8 @@ def celltok(case, i, j):
     """The token written for cell (i, j): its coordinates, or - with 'nearnull' - a reading next to (or equal to) the NULL -999.25;
     with 'textcol' = k the cells of column k are labels (time stamps, station names) that carry their coordinates as text."""
     if case.get("textcol") is not None and j == case["textcol"]:
+        if (case.get("dlm") or "").startswith("COMMA") and case.get("quotechars"):
+            return "R%dC%d%s" % (i + 1, j + 1, ["_O'B", '"', "'s", "_a'b'c"][(i + j) % 4])     # in a comma-delimited file quote characters are ordinary text
         return "R%dC%d" % (i + 1, j + 1)
     if case.get("nearnull") and (i + 2 * j) % 3 == 0:
         return NEAR_NULL[(i * 7 + j) % len(NEAR_NULL)]
@@ -99,6 +101,10 @@ def grid(tier):
             for r in (1, 3):
                 for engine in ("numpy", "normal"):
                     yield {"d": d, "c": c, "r": r, "engine": engine, "wrap": None, "noise": None, "after": r == 3, "textcol": tc}
+    for d, c in ((3, 3), (2, 4), (4, 3), (None, 3)):
+        for tc in (0, 1, 2):
+            for engine in ("numpy", "normal"):
+                yield {"d": d, "c": c, "r": 4, "engine": engine, "wrap": None, "noise": None, "after": False, "textcol": tc, "dlm": "COMMA", "quotechars": True}
     for r in (19, 20, 21, 22, 23):           # around the sniffing window of 21 data lines
         for d, c in ((3, 3), (2, 4), (5, 3), (None, 2)):
             for engine in ("numpy", "normal"):
@@ -125,7 +131,7 @@ def random_case(rng, tier):
             "noise": rng.choice([None, None, "blank", "comment"]) if wrap is None else None,
             "after": rng.random() < 0.3, "dlm": rng.choice([None, None, "COMMA", "TAB", "COMMA_PADDED"]) if wrap is None else None,
             "neg": rng.random() < 0.3, "digitnames": rng.random() < 0.15, "nearnull": rng.random() < 0.15,
-            "textcol": rng.choice([0, 1]) if rng.random() < 0.12 and wrap is None else None}
+            "textcol": rng.choice([0, 1]) if rng.random() < 0.12 and wrap is None else None, "quotechars": rng.random() < 0.5}
 
 
 def build(case):
